@@ -273,6 +273,48 @@ template<class G> struct Pred {
       { DG buf = X.coeffs(); Eigen::Map<G> M(buf.data()); M += t; o.mat(buf); o.mat(X.rplus(t).coeffs()); }
       { DG buf = X.coeffs(); Eigen::Map<G> M(buf.data()); M = M.between(Y); o.mat(buf); o.mat(X.between(Y).coeffs()); }
       { T z=t; z = z + z; DT e2 = t.coeffs()+t.coeffs(); o.mat(z.coeffs()); o.mat(e2); }
+      // every other operation with optional Jacobian outputs, each output bound to a block of a larger (column-major, hence
+      // strided) matrix with sentinel values around it: exactly the block is written, with the values the plain call returns
+      { const int MX = (G::DoF > G::Dim ? G::DoF : G::Dim), N = 2*MX+3; using Big = Eigen::Matrix<S,N,N>;
+        auto fresh = [&](){ Big b; for(int i=0;i<N;i++) for(int j=0;j<N;j++) b(i,j)=S(2000+i*N+j); return b; };
+#define BLK2(CALLPLAIN, CALLBLK, R1, C1_, R2, C2_) { \
+          Eigen::Matrix<S,R1,C1_> pa; Eigen::Matrix<S,R2,C2_> pb; auto v0 = CALLPLAIN(pa,pb); \
+          Big big = fresh(), ref = big; auto v1 = CALLBLK((big.template block<R1,C1_>(1,2)), (big.template block<R2,C2_>(MX+2,1))); \
+          ref.template block<R1,C1_>(1,2) = pa; ref.template block<R2,C2_>(MX+2,1) = pb; o.mat(big); o.mat(ref); o.mat(v1); o.mat(v0); }
+#define BLK1(CALLPLAIN, CALLBLK) { \
+          J pa; auto v0 = CALLPLAIN(pa); Big big = fresh(), ref = big; auto v1 = CALLBLK((big.template block<G::DoF,G::DoF>(2,1))); \
+          ref.template block<G::DoF,G::DoF>(2,1) = pa; o.mat(big); o.mat(ref); o.mat(v1); o.mat(v0); }
+#define F2(a,b) X.between(Y,a,b).coeffs()
+        BLK2(F2, F2, G::DoF, G::DoF, G::DoF, G::DoF)
+#undef F2
+#define F2(a,b) X.rplus(t,a,b).coeffs()
+        BLK2(F2, F2, G::DoF, G::DoF, G::DoF, G::DoF)
+#undef F2
+#define F2(a,b) X.lplus(t,a,b).coeffs()
+        BLK2(F2, F2, G::DoF, G::DoF, G::DoF, G::DoF)
+#undef F2
+#define F2(a,b) X.lminus(Y,a,b).coeffs()
+        BLK2(F2, F2, G::DoF, G::DoF, G::DoF, G::DoF)
+#undef F2
+#define F2(a,b) X.act(p,a,b)
+        BLK2(F2, F2, G::Dim, G::DoF, G::Dim, G::Dim)
+#undef F2
+#define F2(a,b) t.plus(t2,a,b).coeffs()
+        { T t2 = t*S(2);
+        BLK2(F2, F2, G::DoF, G::DoF, G::DoF, G::DoF) }
+#undef F2
+#define F1(a) X.inverse(a).coeffs()
+        BLK1(F1, F1)
+#undef F1
+#define F1(a) X.log(a).coeffs()
+        BLK1(F1, F1)
+#undef F1
+#define F1(a) t.exp(a).coeffs()
+        BLK1(F1, F1)
+#undef F1
+#undef BLK1
+#undef BLK2
+      }
       return true;
     }
     if(op=="P02"){   // C02: t — exp(t) against an independent matrix exponential of hat(t) (scaling and squaring of the power series)
